@@ -1,288 +1,50 @@
 /-
-The script interpreter of Model/TimerSim.lean only ever performs admissible queue operations, so
-every module event of the scripted simulation is a `Timer.stepEv` covered by `wakeinv_step`; the
-wake-up invariant therefore holds for every module in every reachable simulation state, for all scripts.
+Every module event of the scripted simulation (Model/TimerSim.lean) is a `Timer.stepEv` with
+admissible operations (frame specification in Proofs/TimerInterp.lean), hence covered by
+`wakeinv_step`; the wake-up invariant therefore holds for every module in every reachable
+simulation state, for all scripts.
 -/
-import Desverif.Model.TimerSim
-import Desverif.Proofs.TimerSleep
+import Desverif.Proofs.TimerInterp
 namespace Timer
-
-def OkOps (now : Nat) (ops : List Op) : Prop := ∀ o ∈ ops, o.ok now
-
-theorem okOps_nil (now : Nat) : OkOps now [] := by intro o h; cases h
-theorem okOps_append {now : Nat} {a b : List Op} (ha : OkOps now a) (hb : OkOps now b) : OkOps now (a ++ b) := by
-  intro o h
-  rcases List.mem_append.mp h with h | h
-  · exact ha o h
-  · exact hb o h
-
-/-- the context is at time `n` and has emitted only admissible operations -/
-def G (n : Nat) (c : Ctx) : Prop := c.now = n ∧ OkOps n c.ops
-
-theorem G_emit {n : Nat} {c : Ctx} {ops : List Op} (h : G n c) (ho : OkOps n ops) : G n (c.emit ops) :=
-  ⟨h.1, okOps_append h.2 ho⟩
-theorem G_obs {n : Nat} {c : Ctx} (k : String) (h : G n c) : G n (c.obs k) := ⟨h.1, h.2⟩
-
-theorem named_dropOps_ok (n : Nat) (v : Named) : OkOps n v.dropOps := by
-  cases v with
-  | sl s => exact sleep_drop_ok s n
-  | iv i => exact sleep_drop_ok i.delay n
-
-theorem G_bind {n : Nat} {c : Ctx} (x : String) (v : Named) (h : G n c) : G n (c.bind x v) := by
-  refine ⟨h.1, ?_⟩
-  unfold Ctx.bind
-  simp only
-  apply okOps_append h.2
-  split
-  · exact named_dropOps_ok n _
-  · exact okOps_nil n
-
-theorem dropFut_ok (n : Nat) (f : Fut) : OkOps n (dropFut f) := by
-  induction f with
-  | sleeping s => exact sleep_drop_ok s n
-  | timeoutRun s e ih => exact okOps_append ih (sleep_drop_ok s n)
-  | select a b iha ihb => exact okOps_append iha ihb
-  | seq a b iha _ => exact iha
-  | _ => exact okOps_nil n
-
-theorem timeout_poll_ok (ir : Bool) (s : Sleep) (tid now : Nat) : OkOps now (Timeout.poll ir s tid now).2.1 := by
-  unfold Timeout.poll
-  cases ir with
-  | true => exact okOps_nil now
-  | false => exact sleep_poll_ok s tid now
-
-theorem pollTick_ok (i : Interval) (tid now : Nat) : OkOps now (i.pollTick tid now).2.1 := by
-  unfold Interval.pollTick
-  simp only
-  split
-  · exact okOps_append (sleep_poll_ok _ _ _) (sleep_reset_ok _ _ _)
-  · exact sleep_poll_ok _ _ _
-
-theorem interval_reset_ok (i : Interval) (now n : Nat) : OkOps n (i.reset now).2 := by
-  unfold Interval.reset
-  exact sleep_reset_ok _ _ _
-
-theorem G_pollSleep {n : Nat} {c : Ctx} (s : Sleep) (k : String) (h : G n c) : G n (pollSleep s c k).2 := by
-  unfold pollSleep
-  simp only
-  have hg : G n (c.emit (s.poll c.tid c.now).2.1) := G_emit h (by rw [h.1]; exact sleep_poll_ok s c.tid n)
-  split
-  · exact G_obs k hg
-  · exact hg
-
-/-- one poll of any script term keeps the context at its time and emits only admissible operations -/
-theorem G_poll {n : Nat} (f : Fut) : ∀ {c : Ctx}, G n c → G n (poll f c).2 := by
-  induction f with
-  | nop => intro c h; exact h
-  | sleep d => intro c h; exact G_pollSleep _ _ ⟨h.1, h.2⟩
-  | until_ t => intro c h; exact G_pollSleep _ _ ⟨h.1, h.2⟩
-  | sleeping s => intro c h; exact G_pollSleep _ _ h
-  | timeout d e ih =>
-    intro c h
-    simp only [poll]
-    have h0 : G n { c with nextId := c.nextId + 1 } := ⟨h.1, h.2⟩
-    have h1 := ih h0
-    split
-    · rename_i c1 heq
-      rw [heq] at h1
-      exact G_obs _ (G_emit (G_emit h1 (by rw [h1.1]; exact okOps_nil n)) (sleep_drop_ok _ _))
-    · rename_i e' c1 heq
-      rw [heq] at h1
-      have h2 : G n (c1.emit (Timeout.poll false { id := c.nextId, deadline := c.now + d } c1.tid c1.now).2.1) :=
-        G_emit h1 (by rw [h1.1]; exact timeout_poll_ok _ _ _ _)
-      split
-      · exact G_obs _ (G_emit (G_emit h2 (dropFut_ok _ _)) (sleep_drop_ok _ _))
-      · exact h2
-  | timeoutRun s e ih =>
-    intro c h
-    simp only [poll]
-    have h1 := ih h
-    split
-    · rename_i c1 heq
-      rw [heq] at h1
-      exact G_obs _ (G_emit (G_emit h1 (by rw [h1.1]; exact okOps_nil n)) (sleep_drop_ok _ _))
-    · rename_i e' c1 heq
-      rw [heq] at h1
-      have h2 : G n (c1.emit (Timeout.poll false s c1.tid c1.now).2.1) :=
-        G_emit h1 (by rw [h1.1]; exact timeout_poll_ok _ _ _ _)
-      split
-      · exact G_obs _ (G_emit (G_emit h2 (dropFut_ok _ _)) (sleep_drop_ok _ _))
-      · exact h2
-  | select a b iha ihb =>
-    intro c h
-    simp only [poll]
-    have h1 := iha h
-    split
-    · rename_i c1 heq
-      rw [heq] at h1
-      exact G_obs _ (G_emit h1 (dropFut_ok _ _))
-    · rename_i a' c1 heq
-      rw [heq] at h1
-      have h2 := ihb h1
-      split
-      · rename_i c2 heq2
-        rw [heq2] at h2
-        exact G_obs _ (G_emit h2 (dropFut_ok _ _))
-      · rename_i b' c2 heq2
-        rw [heq2] at h2
-        exact h2
-  | seq a b iha ihb =>
-    intro c h
-    simp only [poll]
-    have h1 := iha h
-    split
-    · rename_i c1 heq
-      rw [heq] at h1
-      exact ihb h1
-    · rename_i a' c1 heq
-      rw [heq] at h1
-      exact h1
-  | new x d => intro c h; exact G_bind _ _ ⟨h.1, h.2⟩
-  | newu x t => intro c h; exact G_bind _ _ ⟨h.1, h.2⟩
-  | pollOnce x =>
-    intro c h
-    simp only [poll]
-    split
-    · rename_i s _
-      exact G_obs _ (G_emit (c := { c with env := envSet c.env x (.sl (s.poll c.tid c.now).1) }) ⟨h.1, h.2⟩
-        (by rw [h.1]; exact sleep_poll_ok _ _ _))
-    · exact G_obs _ h
-  | reset x d =>
-    intro c h
-    simp only [poll]
-    split
-    · rename_i s _
-      exact G_emit (c := { c with env := envSet c.env x (.sl (s.reset (c.now + d)).1) }) ⟨h.1, h.2⟩ (sleep_reset_ok _ _ _)
-    · exact h
-  | resetu x t =>
-    intro c h
-    simp only [poll]
-    split
-    · rename_i s _
-      exact G_emit (c := { c with env := envSet c.env x (.sl (s.reset t).1) }) ⟨h.1, h.2⟩ (sleep_reset_ok _ _ _)
-    · exact h
-  | drop x =>
-    intro c h
-    simp only [poll]
-    split
-    · rename_i v _
-      exact G_emit (c := { c with env := envDel c.env x }) ⟨h.1, h.2⟩ (named_dropOps_ok _ _)
-    · exact h
-  | await x =>
-    intro c h
-    simp only [poll]
-    split
-    · rename_i s _
-      have hg : G n (({ c with env := envSet c.env x (.sl (s.poll c.tid c.now).1) } : Ctx).emit (s.poll c.tid c.now).2.1) :=
-        G_emit (c := { c with env := envSet c.env x (.sl (s.poll c.tid c.now).1) }) ⟨h.1, h.2⟩
-          (by rw [h.1]; exact sleep_poll_ok _ _ _)
-      split
-      · exact G_obs _ hg
-      · exact hg
-    · exact G_obs _ h
-  | inew x p m d => intro c h; exact G_bind _ _ ⟨h.1, h.2⟩
-  | tick x =>
-    intro c h
-    simp only [poll]
-    split
-    · rename_i i _
-      have hg : G n (({ c with env := envSet c.env x (.iv (i.pollTick c.tid c.now).1) } : Ctx).emit (i.pollTick c.tid c.now).2.1) :=
-        G_emit (c := { c with env := envSet c.env x (.iv (i.pollTick c.tid c.now).1) }) ⟨h.1, h.2⟩
-          (by rw [h.1]; exact pollTick_ok _ _ _)
-      split
-      · exact G_obs _ hg
-      · exact hg
-    · exact G_obs _ h
-  | ireset x =>
-    intro c h
-    simp only [poll]
-    split
-    · rename_i i _
-      exact G_emit (c := { c with env := envSet c.env x (.iv (i.reset c.now).1) }) ⟨h.1, h.2⟩ (interval_reset_ok _ _ _)
-    · exact h
-  | restart d =>
-    intro c h
-    simp only [poll]
-    split
-    · exact ⟨h.1, h.2⟩
-    · exact h
-  | halt => intro c h; exact ⟨h.1, h.2⟩
-
-theorem G_pollLines {n : Nat} (ls : List (Nat × Fut)) : ∀ {c : Ctx}, G n c → G n (pollLines ls c).2 := by
-  induction ls with
-  | nil => intro c h; exact h
-  | cons a rest ih =>
-    intro c h
-    obtain ⟨ln, f⟩ := a
-    simp only [pollLines]
-    have h1 : G n (poll f { c with line := ln }).2 := G_poll f ⟨h.1, h.2⟩
-    split
-    · rename_i c1 heq
-      rw [heq] at h1
-      exact ih h1
-    · rename_i f' c1 heq
-      rw [heq] at h1
-      exact h1
-
-theorem envDropOps_ok (n : Nat) (env : List (String × Named)) : OkOps n (envDropOps env) := by
-  intro o ho
-  simp only [envDropOps, List.mem_flatMap] at ho
-  obtain ⟨x, _, hx⟩ := ho
-  exact named_dropOps_ok n x.2 o hx
-
-theorem task_dropOps_ok (n : Nat) (t : Task) : OkOps n t.dropOps := by
-  unfold Task.dropOps
-  apply okOps_append _ (envDropOps_ok n _)
-  split
-  · exact dropFut_ok n _
-  · exact okOps_nil n
-
-theorem task_poll_ok (t : Task) (tid now inc : Nat) (a : Acc) (h : OkOps now a.ops) :
-    OkOps now (t.poll tid now inc a).2.ops := by
-  unfold Task.poll
-  split
-  · exact h
-  · simp only
-    have hg := G_pollLines (n := now) t.lines
-      (c := ⟨now, tid, inc, 0, a.nextId, t.env, a.log, a.ops, a.shut⟩) ⟨rfl, h⟩
-    split
-    · exact okOps_append hg.2 (envDropOps_ok now _)
-    · exact hg.2
 
 theorem pollTasks_ok (tasks : List Task) (idx : Nat) (run : Nat → Bool) (now inc : Nat) (a : Acc)
     (h : OkOps now a.ops) : OkOps now (pollTasks tasks idx run now inc a).2.ops := by
-  induction tasks generalizing idx a with
-  | nil => exact h
-  | cons t rest ih =>
-    simp only [pollTasks]
-    split
-    · exact ih _ _ (task_poll_ok t idx now inc a h)
-    · exact ih _ _ h
+  obtain ⟨δ, e, o⟩ := (amoves_pollTasks tasks idx run now inc a).ops
+  rw [e]; exact okOps_append h o
+
+/-- the second half of a module event preserves WakeInv when the operations emitted by the
+    scheduler turn are admissible -/
+theorem finish_wakeinv {last now : Nat} (m : Mod) (k : Kind) (nwoken inc : Nat) (active : Bool)
+    (tasks' : List Task) (a : Acc) (h : WakeInv last m.timer) (hw : ∀ w ∈ m.timer.wakeups, now ≤ w)
+    (hok : OkOps now a.ops) : WakeInv now (m.finish next now k nwoken inc active tasks' a).1.timer := by
+  have h1 : WakeInv now (stepEv m.timer ⟨now, decide (k = Kind.wake), [], a.ops⟩).1 :=
+    wakeinv_step (e := ⟨now, decide (k = Kind.wake), [], a.ops⟩) h ⟨hw, hok⟩
+  unfold Mod.finish
+  simp only
+  split
+  · exact h1
+  · exact h1
+  · exact wakeinv_step (e := ⟨now, false, _, []⟩) h1 ⟨h1.jw, okOps_nil now⟩
 
 /-- **One module event of the scripted simulation preserves WakeInv**, whatever the scripts are:
     the event is `stepEv` with the operations the interpreter emitted (all admissible), followed —
     on a shutdown request — by the drop of every task and a second activate/deactivate. -/
-theorem event_wakeinv {last now : Nat} (m : Mod) (k : Kind) (log : List Obs)
+theorem event_wakeinv {last now : Nat} (m : Mod) (k : Kind)
     (h : WakeInv last m.timer) (hw : ∀ w ∈ m.timer.wakeups, now ≤ w) :
-    WakeInv now (m.event next now k log).1.timer := by
+    WakeInv now (m.event next now k).1.timer := by
   unfold Mod.event
-  simp only
-  split
-  · refine wakeinv_step (e := ⟨now, _, [], _⟩) h ⟨hw, ?_⟩
-    exact pollTasks_ok _ _ _ _ _ _ (okOps_nil now)
-  · refine wakeinv_step (e := ⟨now, _, [], _⟩) h ⟨hw, ?_⟩
-    exact pollTasks_ok _ _ _ _ _ _ (okOps_nil now)
-  · refine wakeinv_step (now := now) (e := ⟨now, false, _, []⟩) ?_ ⟨?_, okOps_nil now⟩
-    · refine wakeinv_step (e := ⟨now, _, [], _⟩) h ⟨hw, ?_⟩
-      exact pollTasks_ok _ _ _ _ _ _ (okOps_nil now)
-    · refine (wakeinv_step (e := ⟨now, _, [], _⟩) h ⟨hw, ?_⟩).jw
-      exact pollTasks_ok _ _ _ _ _ _ (okOps_nil now)
+  exact finish_wakeinv m k _ _ _ _ _ h hw (pollTasks_ok _ _ _ _ _ _ (okOps_nil now))
 
-theorem event_last (m : Mod) (now : Nat) (k : Kind) (log : List Obs) :
-    (m.event next now k log).1.last = now := by
-  unfold Mod.event
+theorem finish_last (m : Mod) (now : Nat) (k : Kind) (nwoken inc : Nat) (active : Bool)
+    (tasks' : List Task) (a : Acc) : (m.finish next now k nwoken inc active tasks' a).1.last = now := by
+  unfold Mod.finish
   simp only
   split <;> rfl
+
+theorem event_last (m : Mod) (now : Nat) (k : Kind) :
+    (m.event next now k).1.last = now := by
+  unfold Mod.event
+  exact finish_last _ _ _ _ _ _ _ _
 
 /-! ### the whole simulation -/
 
@@ -406,12 +168,12 @@ theorem siminv_eventOn {s : Sim} (h : SimInv s) (i t : Nat) (k : Kind)
       · exact h.1 x hx
       · subst hx
         rw [event_last]
-        exact event_wakeinv m k s.log (h.1 m hmem) (hmin m hmem)
+        exact event_wakeinv m k (h.1 m hmem) (hmin m hmem)
     · intro x hx w hw
       rcases List.mem_or_eq_of_mem_set hx with hx | hx
       · exact hmin x hx w hw
       · subst hx
-        exact (event_wakeinv m k s.log (h.1 m hmem) (hmin m hmem)).jw w hw
+        exact (event_wakeinv m k (h.1 m hmem) (hmin m hmem)).jw w hw
 
 theorem siminv_loop {fuel : Nat} {s s' : Sim} (h : SimInv s) (hr : Sim.loop next fuel s = some s') : SimInv s' := by
   induction fuel generalizing s with
@@ -436,8 +198,8 @@ theorem siminv_forAll {s : Sim} (h : SimInv s) (k : Kind) (n i : Nat) : SimInv (
 
 /-- **For all scripts**: every module of the scripted simulation satisfies WakeInv when the
     simulation has run (start-up, event loop, `at_sim_end`). -/
-theorem sim_wakeinv (progs : List (List (List (Nat × Fut)))) (fuel : Nat) (s : Sim)
-    (h : Sim.run next progs fuel = some s) : SimInv s := by
+theorem sim_wakeinv (progs : List (List (List (Nat × Fut)))) (s : Sim)
+    (h : Sim.run next progs = some s) : SimInv s := by
   unfold Sim.run at h
   simp only at h
   have h0 : SimInv { mods := progs.map fun p => ({ progs := p } : Mod) } := by
